@@ -42,6 +42,8 @@
 #include "QXmppVersionManager.h"
 
 #include <QBuffer>
+#include <QCryptographicHash>
+#include <QMessageAuthenticationCode>
 #include <QMimeDatabase>
 #include "QXmppPubSubBaseItem.h"
 #include "QXmppPubSubSubscribeOptions.h"
@@ -307,6 +309,33 @@ static QString msgXml(const QXmppMessage &m)
 static QString errText(const QXmppError &e)
 {
     return e.description;
+}
+
+// ---------------------------------------------------------------------------------------- server side SCRAM (RFC 5802), Qt primitives only
+static QCryptographicHash::Algorithm scramAlgo(const QString &mech)
+{
+    if (mech == u"SCRAM-SHA-1") return QCryptographicHash::Sha1;
+    if (mech == u"SCRAM-SHA-256") return QCryptographicHash::Sha256;
+    if (mech == u"SCRAM-SHA-512") return QCryptographicHash::Sha512;
+    return QCryptographicHash::RealSha3_512;
+}
+static QByteArray scramHmac(QCryptographicHash::Algorithm a, const QByteArray &key, const QByteArray &msg) { return QMessageAuthenticationCode::hash(msg, key, a); }
+static QByteArray scramHi(QCryptographicHash::Algorithm a, const QByteArray &pw, const QByteArray &salt, int iters)
+{
+    QByteArray u = scramHmac(a, pw, salt + QByteArray::fromHex("00000001"));
+    QByteArray out = u;
+    for (int i = 1; i < iters; i++) {
+        u = scramHmac(a, pw, u);
+        for (int k = 0; k < out.size(); k++) out[k] = char(out[k] ^ u[k]);
+    }
+    return out;
+}
+static QMap<QByteArray, QByteArray> scramFields(const QByteArray &msg)
+{
+    QMap<QByteArray, QByteArray> m;
+    for (const auto &part : msg.split(','))
+        if (part.size() >= 2 && part[1] == '=') m[part.left(1)] = part.mid(2);
+    return m;
 }
 
 // C19, SOCKS5 bytestreams: a transparent TCP hop between the receiver and the sender's SOCKS5 server. The relay rewrites the
@@ -1023,6 +1052,122 @@ struct Case {
                 }
             });
             return true;
+        }
+        if (op == u"scram") {
+            // plays the server side of a SCRAM exchange (SASL or SASL2) with its own implementation; `variant` makes it misbehave
+            auto &c = cli(st);
+            const bool sasl2 = st["sasl2"].toBool();
+            const QString variant = st["variant"].toString(u"honest"_s);
+            const QByteArray serverPassword = st["password"].toString().toUtf8();
+            const int iters = st["iters"].toInt(64);
+            const QByteArray salt = QByteArray::fromHex(st["salt"].toString(u"00112233445566778899aabbccddeeff"_s).toLatin1());
+            const QString nsS = sasl2 ? u"urn:xmpp:sasl:2"_s : u"urn:ietf:params:xml:ns:xmpp-sasl"_s;
+            QJsonObject first;
+            auto take = [&](const QString &tag, QJsonObject &found) {
+                return spinUntil([&] {
+                    auto *cn = c.current();
+                    if (!cn) return false;
+                    while (!cn->queue.isEmpty()) {
+                        auto o = cn->queue.takeFirst();
+                        if (o["tag"].toString() == tag) {
+                            found = o;
+                            return true;
+                        }
+                    }
+                    return cn->closed;
+                }, timeout) && !found.isEmpty();
+            };
+            QJsonObject rec { { "ev", "scram" }, { "c", c.index }, { "variant", variant } };
+            auto finish = [&](bool ok) {
+                J(rec);
+                return ok;
+            };
+            if (!take(sasl2 ? u"authenticate"_s : u"auth"_s, first)) {
+                rec["stage"] = "no-auth";
+                return finish(false);
+            }
+            auto *cn = c.current();
+            QDomDocument d;
+            d.setContent(first["xml"].toString().toUtf8(), true);
+            const QString mech = d.documentElement().attribute(u"mechanism"_s);
+            rec["mechanism"] = mech;
+            const auto algo = scramAlgo(mech);
+            const QByteArray clientFirst = QByteArray::fromBase64((sasl2 ? d.documentElement().firstChildElement(u"initial-response"_s).text() : d.documentElement().text()).toLatin1());
+            rec["client_first"] = QString::fromUtf8(clientFirst);
+            const int bareAt = clientFirst.indexOf(",", clientFirst.indexOf(",") + 1) + 1;   // behind the gs2 header "n,,"
+            const QByteArray clientFirstBare = clientFirst.mid(bareAt);
+            const QByteArray gs2 = clientFirst.left(bareAt);
+            const auto cf = scramFields(clientFirstBare);
+            const QByteArray cnonce = cf.value("r");
+            // followUp: sent in the same write as <success/> (what a hostile server would do to get ahead of the client's reaction)
+            const QByteArray followUp = st["followUp"].toString().toUtf8();
+            auto sendEl = [&](QByteArray x, bool restart = false) {
+                if (x.startsWith("<success")) x += followUp;
+                J({ { "ev", "srv_tx" }, { "c", c.index }, { "conn", cn->connIndex }, { "xml", QString::fromUtf8(x) }, { "scram", true } });
+                cn->send(x);
+                if (restart) cn->resetStream();
+            };
+            const QByteArray okTag = sasl2 ? "<success xmlns='urn:xmpp:sasl:2'>" : "<success xmlns='urn:ietf:params:xml:ns:xmpp-sasl'>";
+            if (variant == u"early-success") {
+                // success instead of a challenge: the server has proved nothing
+                sendEl(sasl2 ? okTag + "<authorization-identifier>alice@example.org/res1</authorization-identifier><bound xmlns='urn:xmpp:bind:0'/></success>" : QByteArray("<success xmlns='urn:ietf:params:xml:ns:xmpp-sasl'/>"), !sasl2);
+                rec["stage"] = "early-success-sent";
+                return finish(true);
+            }
+            QByteArray snonce = "srvNonce" + QByteArray::number(g_seq);
+            QByteArray fullNonce = cnonce + snonce;
+            if (variant == u"bad-nonce") fullNonce = "X" + fullNonce.mid(1);
+            if (variant == u"short-nonce") fullNonce = cnonce;
+            QByteArray serverFirst = "r=" + fullNonce + ",s=" + salt.toBase64() + ",i=" + QByteArray::number(iters);
+            if (variant == u"zero-iterations") serverFirst = "r=" + fullNonce + ",s=" + salt.toBase64() + ",i=0";
+            if (variant == u"no-salt") serverFirst = "r=" + fullNonce + ",i=" + QByteArray::number(iters);
+            if (variant == u"garbage-iterations") serverFirst = "r=" + fullNonce + ",s=" + salt.toBase64() + ",i=many";
+            if (variant == u"extension-m") serverFirst = "m=ext," + serverFirst;
+            sendEl((sasl2 ? "<challenge xmlns='urn:xmpp:sasl:2'>" : "<challenge xmlns='urn:ietf:params:xml:ns:xmpp-sasl'>") + serverFirst.toBase64() + "</challenge>");
+            QJsonObject second;
+            if (!take(u"response"_s, second)) {
+                rec["stage"] = "no-response";   // the client refused the challenge (aborted / closed)
+                return finish(true);
+            }
+            QDomDocument d2;
+            d2.setContent(second["xml"].toString().toUtf8(), true);
+            const QByteArray clientFinal = QByteArray::fromBase64(d2.documentElement().text().toLatin1());
+            rec["client_final"] = QString::fromUtf8(clientFinal);
+            const int proofAt = clientFinal.lastIndexOf(",p=");
+            const QByteArray clientFinalNoProof = clientFinal.left(proofAt);
+            const QByteArray proof = QByteArray::fromBase64(clientFinal.mid(proofAt + 3));
+            const auto fin = scramFields(clientFinalNoProof);
+            const QByteArray authMessage = clientFirstBare + "," + serverFirst + "," + clientFinalNoProof;
+            const QByteArray salted = scramHi(algo, serverPassword, salt, qMax(1, iters));
+            const QByteArray clientKey = scramHmac(algo, salted, "Client Key");
+            const QByteArray storedKey = QCryptographicHash::hash(clientKey, algo);
+            const QByteArray clientSig = scramHmac(algo, storedKey, authMessage);
+            QByteArray expectProof = clientKey;
+            for (int k = 0; k < expectProof.size(); k++) expectProof[k] = char(expectProof[k] ^ clientSig[k]);
+            const bool proofOk = proof == expectProof && fin.value("r") == fullNonce && fin.value("c") == gs2.toBase64();
+            rec["proof_ok"] = proofOk;
+            rec["channel_binding_ok"] = fin.value("c") == gs2.toBase64();
+            rec["nonce_echoed"] = fin.value("r") == fullNonce;
+            const QByteArray serverKey = scramHmac(algo, salted, "Server Key");
+            QByteArray serverSig = scramHmac(algo, serverKey, authMessage);
+            if (!proofOk && variant == u"honest") {
+                sendEl(sasl2 ? QByteArray("<failure xmlns='urn:xmpp:sasl:2'><not-authorized xmlns='urn:ietf:params:xml:ns:xmpp-sasl'/></failure>") : QByteArray("<failure xmlns='urn:ietf:params:xml:ns:xmpp-sasl'><not-authorized/></failure>"));
+                rec["stage"] = "failure-sent";
+                return finish(true);
+            }
+            if (variant == u"wrong-signature") serverSig[0] = char(serverSig[0] ^ 1);
+            QByteArray data = "v=" + serverSig.toBase64();
+            if (variant == u"signature-of-other-password") data = "v=" + scramHmac(algo, scramHmac(algo, scramHi(algo, "some-other-password", salt, qMax(1, iters)), "Server Key"), authMessage).toBase64();
+            if (variant == u"empty-signature") data = "v=";
+            if (variant == u"error-instead") data = "e=other-error";
+            if (variant == u"success-without-data") data.clear();
+            if (sasl2) {
+                sendEl(okTag + (data.isEmpty() ? QByteArray() : "<additional-data>" + data.toBase64() + "</additional-data>") + "<authorization-identifier>alice@example.org/res1</authorization-identifier><bound xmlns='urn:xmpp:bind:0'/></success>", false);
+            } else {
+                sendEl(okTag + data.toBase64() + "</success>", true);
+            }
+            rec["stage"] = "success-sent";
+            return finish(true);
         }
         if (op == u"autoreply") {
             g_autoReplies.push_back({ st["childns"].toString(), st["xml"].toString() });
